@@ -41,6 +41,8 @@ pub struct MonStats {
     pub flips_error_00: u64,
     pub flips_stop: u64,
     pub halted_edges: u64,
+    /// set when the machine halts: was the byte loaded by a fetch word (first opcode byte)?
+    pub halted_at_fetch: Option<bool>,
 }
 
 /// One monitored clock edge. Returns a violation (key, what) if an invariant breaks.
@@ -62,6 +64,7 @@ pub fn monitored_edge(m: &mut Machine, st: &mut MonStats) -> Option<(String, Str
         (s.mac0(), s.mac1(), s.mac2())
     };
     let irload = mac0 && mac2 && !mac1;
+    let fetch_word = m.signals().mac3();
     let byte = m.verif_last_bus_read();
     let (stack, prog) = (m.stacksize(), m.programsize());
     m.raw_mut().trigger_clock_edge();
@@ -91,6 +94,7 @@ pub fn monitored_edge(m: &mut Machine, st: &mut MonStats) -> Option<(String, Str
     let conflict = !wait && pend_reg.is_some() && !rule_ok && irload && byte == 0x01;
     if conflict && (got == State::Stopped || got == State::ErrorStopped) {
         st.flips_stop += 1;
+        st.halted_at_fetch = Some(fetch_word);
         return None;
     }
     if got != exp {
@@ -108,6 +112,9 @@ pub fn monitored_edge(m: &mut Machine, st: &mut MonStats) -> Option<(String, Str
                 exp, why, got, regs, stack, prog, wait, irload, byte, pend_reg
             ),
         ));
+    }
+    if got != State::Running {
+        st.halted_at_fetch = Some(irload && fetch_word);
     }
     match (exp, why) {
         (State::ErrorStopped, "opcode 0x00 loaded") => st.flips_error_00 += 1,
@@ -177,6 +184,8 @@ struct Out {
     runs: u64,
     bad: BTreeMap<String, Vec<(String, String)>>,
     halted: Vec<(Machine, Prog)>,
+    /// digest -> the stop came from a first opcode byte
+    first_byte_stop: std::collections::HashMap<u64, bool>,
     halted_keys: HashSet<u64>,
     end_states: [u64; 3],
 }
@@ -200,6 +209,7 @@ fn digest(m: &Machine) -> u64 {
 
 fn run_prog(p: &Prog, out: &mut Out) {
     out.runs += 1;
+    mc::watch::progress(|| p.line());
     let r = mc::catch(|| {
         let mut m = p.machine();
         let mut st = MonStats::default();
@@ -227,6 +237,8 @@ fn run_prog(p: &Prog, out: &mut Out) {
             out.st.flips_stop += st.flips_stop;
             out.st.halted_edges += st.halted_edges;
             out.end_states[m.state() as usize] += 1;
+            let st_halted_at_fetch = st.halted_at_fetch;
+            let st = MonStats { halted_at_fetch: st_halted_at_fetch, ..MonStats::default() };
             if let Some((k, w)) = viol {
                 let e = out.bad.entry(k).or_default();
                 if e.len() < 5 {
@@ -234,6 +246,9 @@ fn run_prog(p: &Prog, out: &mut Out) {
                 }
             } else if m.state() != State::Running {
                 let d = digest(&m);
+                if let Some(f) = st.halted_at_fetch {
+                    out.first_byte_stop.insert(d, f);
+                }
                 if out.halted_keys.insert(d) && out.halted.len() < 400 {
                     out.halted.push((m, p.clone()));
                 }
@@ -480,8 +495,8 @@ fn absorb(halted: &Machine, origin: &Prog) -> (u64, u64, Vec<(String, String, St
 }
 
 /// Continue from a regular stop at a first-byte STOP: the computation resumes with the next instruction.
-fn resume_check(halted: &Machine, origin: &Prog) -> Option<(String, String, String)> {
-    if halted.state() != State::Stopped || halted.verif_micro_addr() != 0 {
+fn resume_check(halted: &Machine, origin: &Prog, first_byte: bool) -> Option<(String, String, String)> {
+    if halted.state() != State::Stopped || !first_byte {
         return None; // second-byte stops land in the interrupt-entry routine (frozen, not "next instruction")
     }
     let at_halt = mach::cpu_of(halted);
@@ -609,7 +624,8 @@ pub fn run() {
                 println!("  {} :: {}", k, w);
                 ctx.violation(k, w, l);
             }
-            if let Some((k, w, l)) = resume_check(m, pr) {
+            let fb = out.first_byte_stop.get(&digest(m)).cloned().unwrap_or(false);
+            if let Some((k, w, l)) = resume_check(m, pr, fb) {
                 println!("  {} :: {}", k, w);
                 ctx.violation(k, w, l);
             }
@@ -625,6 +641,7 @@ pub fn run() {
         for i in r {
             run_prog(&progs[i], &mut out);
         }
+        mc::watch::idle();
         out
     });
     let mut all = Out::default();
@@ -647,6 +664,7 @@ pub fn run() {
                 }
             }
         }
+        all.first_byte_stop.extend(o.first_byte_stop);
         for (m, p) in o.halted {
             if all.halted_keys.insert(digest(&m)) {
                 all.halted.push((m, p));
@@ -669,11 +687,15 @@ pub fn run() {
     }
     let n_classes = by_class.len();
     let chosen: Vec<&(Machine, Prog)> = by_class.values().flat_map(|v| v.iter().take(per_class).cloned()).collect();
+    let first_byte = all.first_byte_stop.clone();
     let res = mc::par_map(&chosen, |(m, p)| {
+        mc::watch::progress(|| format!("absorb {}", p.line()));
         let (s, t, mut bad) = absorb(m, p);
-        if let Some(v) = resume_check(m, p) {
+        let fb = first_byte.get(&digest(m)).cloned().unwrap_or(false);
+        if let Some(v) = resume_check(m, p, fb) {
             bad.push(v);
         }
+        mc::watch::idle();
         (s, t, bad)
     });
     let mut ab_states = 0u64;
